@@ -2,13 +2,14 @@
 (* C04: analysis output is a pure function of the source and the options.                       *)
 (* Processes differ in their interpreter hash seed; inside a process analyses happen one after   *)
 (* the other, each with a fresh loader or with the process's long-lived (reused) loader, with    *)
-(* one of the option sets Opts, and possibly after `warm` units of unrelated earlier work (a     *)
-(* unit = one un-annotated parameter of some other module analysed in the same process).  The    *)
+(* one of the option sets (fam.opts), and possibly after `warm` units of unrelated earlier work  *)
+(* (a unit = one un-annotated parameter of another module analysed in the same process).  The    *)
 (* specification: there is a fixed (arbitrary) function F such that every                        *)
 (* Analyze(proc, prog, opt, mode, warm) observes F[prog, opt]; the process's hash seed, what the *)
 (* process did before (how much, and what) and how its loader was obtained must not matter.      *)
 (* An observation is <<digest of the stub text, digest of the error report, digest of the        *)
-(* pickled stub>>.                                                                               *)
+(* pickled stub>>; an analysis that escapes with an exception is observed as <<"exc:" + the      *)
+(* exception's type, "", "">> (the text of an internal error is not an output).                  *)
 (*                                                                                               *)
 (* Families of histories (bounds of the model; the driver runs all of them in one TLC run):       *)
 (*   mixed  : 3 processes x 3 programs x 2 option sets x 2 loader modes x warm-ups {0,4},        *)
